@@ -25,7 +25,7 @@ type c19Fault struct {
 }
 
 type c19Case struct {
-	Transport string     `json:"transport"` // fconn | inproc
+	Transport string     `json:"transport"` // fconn | fconn-tls | inproc
 	Faults    []c19Fault `json:"faults"`
 	ChanBuf   int        `json:"chanBuf"`
 }
@@ -65,6 +65,10 @@ func runC19(c *c19Case) *c19Obs {
 	cfg.Node = srvNode
 	cfg.SchemeOpts = []lime.AuthenticationScheme{lime.AuthenticationSchemeGuest}
 	cfg.EncryptOpts = []lime.SessionEncryption{lime.SessionEncryptionNone}
+	tlsOn := c.Transport == "fconn-tls"
+	if tlsOn {
+		cfg.EncryptOpts = []lime.SessionEncryption{lime.SessionEncryptionTLS}
+	}
 	cfg.ChannelBufferSize = c.ChanBuf
 	cfg.Authenticate = func(context.Context, lime.Identity, lime.Authentication) (*lime.AuthenticationResult, error) {
 		return lime.MemberAuthenticationResult(), nil
@@ -88,7 +92,12 @@ func runC19(c *c19Case) *c19Obs {
 		mu.Unlock()
 		return nil
 	})
-	fl := NewFListener(&lime.TCPConfig{ReadLimit: c19ReadLimit}, PipeOpts{Capture: true})
+	stls, ctls := TLSConfigs()
+	srvTCP, cliTCP := &lime.TCPConfig{ReadLimit: c19ReadLimit}, &lime.TCPConfig{ReadLimit: c19ReadLimit}
+	if tlsOn {
+		srvTCP.TLSConfig, cliTCP.TLSConfig = stls, ctls
+	}
+	fl := NewFListener(srvTCP, PipeOpts{Capture: true})
 	addr := lime.InProcessAddr("c19")
 	var bl lime.BoundListener
 	if c.Transport == "inproc" {
@@ -115,12 +124,15 @@ func runC19(c *c19Case) *c19Obs {
 	ccfg.ChannelBufferSize = c.ChanBuf
 	ccfg.CompSelector = lime.NoneCompressionSelector
 	ccfg.EncryptSelector = lime.NoneEncryptionSelector
+	if tlsOn {
+		ccfg.EncryptSelector = lime.TLSEncryptionSelector
+	}
 	ccfg.Authenticator = lime.GuestAuthenticator
 	ccfg.NewTransport = func(context.Context) (lime.Transport, error) {
 		if c.Transport == "inproc" {
 			return lime.DialInProcess(addr, 4)
 		}
-		t, _, err := fl.DialTransport(&lime.TCPConfig{ReadLimit: c19ReadLimit})
+		t, _, err := fl.DialTransport(cliTCP)
 		return t, err
 	}
 	client := lime.NewClient(ccfg, cmux)
@@ -292,7 +304,7 @@ func runC19(c *c19Case) *c19Obs {
 		obs.Rounds = append(obs.Rounds, r)
 	}
 	// (d) every successful send was written to some connection
-	if c.Transport != "inproc" {
+	if c.Transport == "fconn" {
 		var all []byte
 		fl.mu.Lock()
 		for _, cn := range fl.Conns {
@@ -424,7 +436,7 @@ func TestC19Enum(t *testing.T) {
 	defer close(stop)
 	sh, nsh := Shard()
 	idx := 0
-	for _, tr := range []string{"fconn", "inproc"} {
+	for _, tr := range []string{"fconn", "fconn-tls", "inproc"} {
 		for _, kind := range c19Faults {
 			if tr == "inproc" && kind != "server-finish" && kind != "server-fail" && kind != "eof" {
 				continue // byte-level faults need a byte stream
@@ -467,7 +479,7 @@ func TestC19(t *testing.T) {
 	go c19Watchdog(rec, stop)
 	defer close(stop)
 	rapid.Check(t, func(rt *rapid.T) {
-		c := &c19Case{Transport: rapid.SampledFrom([]string{"fconn", "fconn", "inproc"}).Draw(rt, "transport"), ChanBuf: rapid.SampledFrom([]int{0, 1, 8}).Draw(rt, "chanBuf")}
+		c := &c19Case{Transport: rapid.SampledFrom([]string{"fconn", "fconn", "fconn-tls", "inproc"}).Draw(rt, "transport"), ChanBuf: rapid.SampledFrom([]int{0, 1, 8}).Draw(rt, "chanBuf")}
 		n := rapid.IntRange(1, 4).Draw(rt, "reps")
 		for i := 0; i < n; i++ {
 			kinds := c19Faults
